@@ -273,7 +273,7 @@ theorem search_candidates_ok {S : Type} (sc : Scorer S) (ts : Ts) (hts : ts.Vali
     ∀ c ∈ (searchCore sc ts o txt fuel).1.1, c.res.v.Ok ∧ valCalOk c.res.v = true := by
   intro c hc
   obtain ⟨p, rules, hr, hm, _⟩ := C15.search_sound sc ts o txt fuel c hc
-  exact ⟨reach_ok sc ts hts o.depth txt _ (initialStack_ok sc _ _ _ txt fuel) p _ rules hr c.res hm,
+  exact ⟨(reach_ok sc ts hts o.depth txt _ (initialStack_ok sc _ _ _ txt fuel) p _ rules hr).1 c.res hm,
          reach_cal sc ts o.depth txt _ (initialStack_cal sc _ _ _ txt fuel) p _ rules hr c.res hm⟩
 
 /-- … and so is every candidate of `ctparse_gen`, with and without latent-time anchoring -/
@@ -429,5 +429,44 @@ theorem candidate_accessors_total {S : Type} (sc : Scorer S) (ts : Ts) (hts : ts
 
 /-- non-vacuity: a concrete parse with a candidate, on which the statement speaks -/
 example : (ctparseGen (constScorer) ⟨⟨2018, 3, 7⟩, 12, 43⟩ {} [53, 112, 109] 200).cands.length > 0 := by decide +kernel
+
+/-! ### the order clause: an interval whose fully dated start and end both resolve never starts after it ends -/
+/-- **every production keeps it** (`Val.Ok` of an interval carries `IvOrd`): the comparing productions by their guards
+    (`Lemmas/IntervalOrdRules`: lexicographic date order ⇒ ordinal order, a shifted end lies after the start, an added
+    duration is not negative, month arithmetic does not move back), the two that do not compare (`ruleTODTOD`, `rulePODPOD`)
+    because their registered predicates make the first end date-less, the others by handing the interval on -/
+theorem rule_interval_ordered (r : String × List Gen.Pred) (hr : r ∈ Gen.ruleSigs) (ts : Ts) (hts : ts.Valid) (args : List Art)
+    (hp : (List.zipWith predHolds r.2 args).all id = true) (hargs : ∀ a ∈ args, a.v.Ok) (x : Art)
+    (h : applyRule r.1 ts args = .ok (some x)) (f t : Option Time) (hx : x.v = .interval f t) : IvOrd f t := by
+  have := applyRule_ok r hr ts hts args hp hargs x h
+  rw [hx] at this
+  exact this.2.2
+
+/-- **every streamed candidate**, with and without latent-time anchoring, for every text, valid reference time, scorer and
+    option set: if the start of the first end and the end of the second end both are datetimes, the first is not after the second -/
+theorem candidate_interval_ordered {S : Type} (sc : Scorer S) (ts : Ts) (hts : ts.Valid) (o : Opts) (raw : List Nat) (fuel : Nat) :
+    ∀ c ∈ (ctparseGen sc ts o raw fuel).cands, ∀ f t, c.res.v = .interval (some f) (some t) →
+      ∀ s e sd ed, f.start = .ok s → s.dt = .ok sd → t.end_ = .ok e → e.dt = .ok ed → sd.minutes ≤ ed.minutes := by
+  intro c hc f t hv s e sd ed h1 h2 h3 h4
+  have hok := parse_candidates_ok sc ts hts o raw fuel c hc
+  rw [hv] at hok
+  exact hok.2.2 f t rfl rfl sd.minutes ed.minutes (by simp [startMin, h1, h2]) (by simp [endMin, h3, h4])
+
+/-- a duration amount is never negative -/
+theorem candidate_duration_nonneg {S : Type} (sc : Scorer S) (ts : Ts) (hts : ts.Valid) (o : Opts) (raw : List Nat) (fuel : Nat) :
+    ∀ c ∈ (ctparseGen sc ts o raw fuel).cands, ∀ n u, c.res.v = .duration n u → 0 ≤ n := by
+  intro c hc n u hv
+  have hok := parse_candidates_ok sc ts hts o raw fuel c hc
+  rw [hv] at hok
+  exact hok
+
+/-- the clause is not vacuous and not trivially true: a reversed pair of dates violates it, and the comparing production
+    refuses exactly that pair -/
+example : ¬ IvOrd (some { year := some 2020, month := some 5, day := some 3 }) (some { year := some 2020, month := some 5, day := some 1 }) := by
+  intro h
+  have := h _ _ rfl rfl 1062069120 1062067679 (by decide +kernel) (by decide +kernel)
+  omega
+example : ruleDateDate { year := some 2020, month := some 5, day := some 3 } { year := some 2020, month := some 5, day := some 1 } = .ok none := by
+  decide +kernel
 
 end QuickAdd.C02
